@@ -274,9 +274,9 @@ def run(ctx):
                  dict(allocs=2, k=2, inc=1, req=3, outcomes=["ok", "missing", "err_exec"]), dict(allocs=3, k=1, inc=1, req=4, outcomes=["ok", "err_applied"]),
                  dict(allocs=1, k=2, inc=3, req=6, outcomes=["ok", "err_exec"]), dict(allocs=2, k=1, inc=3, req=6, outcomes=["ok"]),
                  dict(allocs=2, k=1, inc=5, req=6, outcomes=["ok", "fields1"], limit=27)]
-        sims = [dict(allocs=3, k=2, inc=2, req=8, outcomes=HANDLED, num=1500), dict(allocs=2, k=2, inc=3, req=8, outcomes=ALL_OUTCOMES, num=1000),
-                dict(allocs=3, k=1, inc=1, req=8, outcomes=HANDLED, num=1000, limit=16), dict(allocs=3, k=2, inc=5, req=8, outcomes=HANDLED, num=1000),
-                dict(allocs=2, k=2, inc=1, req=8, outcomes=REPR, num=1000)]
+        sims = [dict(allocs=3, k=2, inc=2, req=8, outcomes=HANDLED, num=900), dict(allocs=2, k=2, inc=3, req=8, outcomes=ALL_OUTCOMES, num=600),
+                dict(allocs=3, k=1, inc=1, req=8, outcomes=HANDLED, num=600, limit=16), dict(allocs=3, k=2, inc=5, req=8, outcomes=HANDLED, num=600),
+                dict(allocs=2, k=2, inc=1, req=8, outcomes=REPR, num=600)]
     stored = [c["case"] for c in K.stored_finding_cases("C34", "schedule")]
     pending = []          # quick tier: one harness run for all schedules (saves go test start-ups)
 
